@@ -34,7 +34,7 @@ def spell_root(sp, top, sbroot, cwd=""):
 class Check:
     id = PROP
     level = "exploration"
-    cases = {"quick": 2500, "thorough": 120000}
+    cases = {"quick": 12000, "thorough": 150000}
     rule = ("case = (random tree with files/dirs/symlinks/FIFOs/sockets/dot-files, 1-3 disjoint roots spelled default/relative/./relative/absolute/nested, "
             "per-root mindepth/maxdepth in 0..depth+2, bfs/dfs) x environment E = (arrival order class of every directory stream, d_type unknown per stream, "
             "inode renumbering incl. a second device whose inode numbers collide with the first, entropy seed); each case is run as given and with bfs/dfs flipped. "
